@@ -610,9 +610,28 @@ Proof.
 Qed.
 
 (* the two recorded defects, as facts about the reader's matcher *)
+Definition foreign_lower (e : elem) : bool :=
+  match atom_parse (lower_string (e_sym e)) with
+  | Ok p => match from_symbol (p_elem p) with None => true | Some _ => false end
+  | Err _ => false
+  end.
 Lemma aromatic_foreign_symbol_unreadable :
   exists e p, In e elements /\ atom_parse (lower_string (e_sym e)) = Ok p /\ from_symbol (p_elem p) = None.
-Proof. exists el_Si. eexists. split; [vm_compute; tauto|]. split; vm_compute; reflexivity. Qed.
+Proof.
+  assert (H : existsb foreign_lower elements = true) by (vm_compute; reflexivity).
+  apply existsb_exists in H. destruct H as [e [He Hf]]. unfold foreign_lower in Hf.
+  destruct (atom_parse (lower_string (e_sym e))) as [p|] eqn:E; [|discriminate].
+  destruct (from_symbol (p_elem p)) eqn:E2; [discriminate|].
+  exists e, p. repeat split; assumption.
+Qed.
 
 Lemma atom_map_limit : atom_parse "CH3:10000" = Err IncorrectSmiles /\ atom_parse "CH3:9999" = Ok (mkParsed 0 "C" None (Some 9999) 0 3 None).
+Proof. split; vm_compute; reflexivity. Qed.
+
+(* non-vacuity: a bracket atom with every field set, written by the model and parsed back *)
+Lemma atom_token_example :
+  let g := mkMol [(7, mkAtom 6 (Some 13) (-1) false (Some 2) None)] [(7, [])] in
+  atom_fields g (opts_of_spec "m") no_stabs 7 [(7, [])] =
+    Ok (mkAF true "13" "C" "" "H2" "-" ":7") /\
+  atom_parse "13CH2-:7" = Ok (mkParsed 0 "C" (Some 13) (Some 7) (-1) 2 None).
 Proof. split; vm_compute; reflexivity. Qed.
